@@ -2,6 +2,47 @@
 import re
 
 PROPS = {
+    "C06": {
+        "modules": ["Ark.Props.C06"],
+        "claimed": False,
+        "crate": "harness2",
+        "rule": "one op line per pairing / multi-pairing / Miller loop / final exponentiation / bilinearity test; distinct = distinct op line; non-trivial = non-identity inputs",
+        "exhaustive": [],
+        "partial": ["BILINEARITY is not provable here (Mathlib has no divisor / Weil-pairing theory): it is covered only by the model/implementation correspondence of the whole pairing for all five families and by bilinearity TESTS of the real code judged in the driver (t_bilin, t_addl, t_addr) - tests, not proofs; proved are the algebraic skeleton statements (multi Miller loop = product, final exponentiation multiplicative, identity pairs contribute one, prepared = unprepared)"],
+        "assumptions": ["tower hooks use the trait-default bodies (their equality with the curve crates' overrides is C02/C16)"],
+    },
+    "C11": {
+        "modules": ["Ark.Props.C11"],
+        "claimed": False,
+        "rule": "one op line per sqrt / legendre / coordinate-recovery call; distinct = distinct op line; non-trivial = input outside {0,1}",
+        "exhaustive": ["every element of toy prime fields with two-adicity 1..8 (both sqrt variants, derived and hand-written), toy Fp2 up to 97^2, toy Fp3 up to 19^3; every coordinate of the toy curves"],
+        "partial": [],
+        "assumptions": ["a quadratic extension over a base without sqrt precomputation (Fp12 over Fp6 3-over-2) has no square-root algorithm: outside the quantifier (verdict note)"],
+    },
+    "C04": {
+        "modules": ["Ark.Props.C04"],
+        "claimed": False,
+        "rule": "one op line per scalar-multiplication call (algorithm, curve, point, scalar, window/table parameters); distinct = distinct op line; non-trivial = scalar outside {0,1} and non-identity point",
+        "exhaustive": ["all points x all k in 0..2#E+1 on seven toy curves over F_13 for the double-and-add and scalar paths"],
+        "partial": [],
+        "assumptions": ["GLV paths are judged on points of the order-r subgroup (the Projective type's invariant); curve crates' GLV parameters are C16"],
+    },
+    "C09": {
+        "modules": ["Ark.Props.C09"],
+        "claimed": False,
+        "rule": "one op line per (type, mode, value) round trip or uniqueness probe; distinct = distinct op line; non-trivial = value outside {0,1}",
+        "exhaustive": ["every byte string of the serialized size for the toy fields and toy curves"],
+        "partial": [],
+        "assumptions": ["the ZCash format of the bls12_381 curve crate is not modelled (ark_test_curves does not override serialization)"],
+    },
+    "C10": {
+        "modules": ["Ark.Props.C10"],
+        "claimed": False,
+        "rule": "one op line per (type, mode, validate, byte string) deserialization; distinct = distinct op line; non-trivial = non-empty byte string",
+        "exhaustive": ["every byte string of the serialized size (and all truncations) for the toy fields and toy curves"],
+        "partial": [],
+        "assumptions": [],
+    },
     "C14": {
         "modules": ["Ark.Props.C14"],
         "parallel": True,
@@ -11,8 +52,7 @@ PROPS = {
         "assumptions": ["fork-join determinism of safe Rust / rayon"],
     },
     "C08": {
-        "modules": ["Ark.Props.C08"],
-        "claimed": False,
+        "modules": ["Ark.Props.C08a", "Ark.Props.C08b"],
         "rule": "one op line per polynomial operator on a pair of operands; distinct = distinct op line; non-trivial = some operand of length > 1",
         "exhaustive": ["all canonical dense pairs of length <= 3 over F_5 (<= 4 thorough) for the core ops"],
         "partial": [],
@@ -61,8 +101,7 @@ PROPS = {
         "assumptions": ["Hash is observed through a recording Hasher (byte streams of write* calls)", "SW Affine values with infinity=true and non-zero placeholder coordinates are constructible only through doc(hidden) public fields and are outside the quantifier (ops *.raw, verdict note)"],
     },
     "C07": {
-        "modules": ["Ark.Props.C07"],
-        "claimed": False,
+        "modules": ["Ark.Props.C07a", "Ark.Props.C07b"],
         "rule": "one op line per domain construction / element / transform / vanishing / Lagrange evaluation; distinct = distinct op line; non-trivial = size > 1 or non-trivial operands",
         "exhaustive": ["every coefficient vector over F_3, F_5, F_7 for the small domains; every input length 0..=size for sizes <= 32"],
         "partial": [],
